@@ -26,6 +26,10 @@ M = {
  "c05-polarity": ("src/epd4in2/mod.rs", "const IS_BUSY_LOW: bool = true;", "const IS_BUSY_LOW: bool = false;", ["C05"]),
  "c05-delay-const": ("src/interface.rs", "delay_us.unwrap_or(10_000)", "delay_us.unwrap_or(1_000)", ["C05"]),
  "c06-no-or7": ("src/epd4in2/mod.rs", "        self.send_data(spi, &[(tmp | 0x07) as u8])?;\n\n        self.send_data(spi, &[(y >> 8) as u8])?;\n        self.send_data(spi, &[y as u8])?;\n\n        self.send_data(spi, &[((y + height - 1) >> 8) as u8])?;\n        self.send_data(spi, &[(y + height - 1) as u8])?;\n\n        self.send_data(spi, &[0x01])?; // Gates scan both inside and outside of the partial window. (default)\n\n        //TODO: handle dtm somehow", "        self.send_data(spi, &[tmp as u8])?;\n\n        self.send_data(spi, &[(y >> 8) as u8])?;\n        self.send_data(spi, &[y as u8])?;\n\n        self.send_data(spi, &[((y + height) >> 8) as u8])?;\n        self.send_data(spi, &[(y + height) as u8])?;\n\n        self.send_data(spi, &[0x01])?; // Gates scan both inside and outside of the partial window. (default)\n\n        //TODO: handle dtm somehow", ["C06"]),
+ "c02-12in48-no-partial-out": ("src/epd12in48b_v2/mod.rs", "        self.write_window_data(transmission_cmd, window, pixels)?;\n\n        self.cmd(CS_ALL, Command::PartialOut)", "        self.write_window_data(transmission_cmd, window, pixels)?;\n\n        Ok(())", ["C02", "C15", "C06"]),
+ "c01-12in48-plane-swap": ("src/epd12in48b_v2/mod.rs", "        self.write_window_data(Command::DataStartTransmission2, FULL_RECT, pixels)?;", "        self.write_window_data(Command::DataStartTransmission1, FULL_RECT, pixels)?;", ["C01", "C15"]),
+ "c10-12in48-dc": ("src/epd12in48b_v2/mod.rs", "            drop(self.peris.m2s2_dc.set_state(dc));\n\n            self.delay.delay_ns(100); // Tcss = 60ns, Tsds = 30ns", "            self.delay.delay_ns(100); // Tcss = 60ns, Tsds = 30ns", ["C10", "C15"]),
+ "c01-7in5-nibble": ("src/epd7in5/mod.rs", "                data |= if temp & 0x80 == 0 { 0x00 } else { 0x03 };", "                data |= if temp & 0x80 == 0 { 0x00 } else { 0x04 };", ["C01"]),
  "c07-count": ("src/epd2in9/mod.rs", "            .data_x_times(spi, color, WIDTH / 8 * HEIGHT)?;", "            .data_x_times(spi, color, WIDTH / 8 * (HEIGHT - 1))?;", ["C07"]),
 }
 def sh(cmd, **kw):
